@@ -206,8 +206,14 @@ def run(rep, tier, root=None):
     # GCTM starts from equivalent_layers with the same (h, p, L)
     g = ix.func(MOD, "GCTM")
     rep.functions_analysed.add(g.fq)
-    calls = [n for n in ast.walk(g.node) if isinstance(n, ast.Call) and norm_text(n.func) == "equivalent_layers"]
-    rep.check(len(calls) == 1 and [norm_text(a) for a in calls[0].args] == g.params[:3], "E1.gctm-guess",
+    Iq = Interp(ix, opaque={f.fq})
+    Iq.returns(g, Iq.symbolic_args(g))
+    calls = [c for c in Iq.call_log if c[0] == g.fq and c[1].split(".")[-1] == "equivalent_layers"]
+    bound = []
+    if len(calls) == 1:
+        # arguments by parameter name, whether passed by position or by keyword
+        bound = list(calls[0][2]) + [calls[0][3].get(p_) for p_ in f.params[len(calls[0][2]):]]
+    rep.check(len(calls) == 1 and len(bound) >= 3 and all(same_value(b_, Rat.sym(p_)) for b_, p_ in zip(bound[:3], g.params[:3])), "E1.gctm-guess",
               g.fq + ": first guess = equivalent_layers(h, p, L)", "GCTM's starting guess is not equivalent_layers(h, p, L)", g.where())
 
     # ---------------------------------------------------------------- E2 tiling
